@@ -167,6 +167,21 @@ def run(ctx):
         ctx.sample({k: (v if k not in ('blob', 'inner', 'expect') else '<...>') for k, v in ev[j].items()})
     rej = ctx.judge('Trace_C20', ev, chunk=150)
     ctx.traces += len(ev) - len(rej)
+    bad = {i for i, _ in rej}
+    good = [e for i, e in enumerate(ev) if i not in bad and len(e.get('blob', [])) < 3000]
+
+    def c_expect(field, val):
+        def f(e):
+            if e['k'] != 'export' or e['expect']['encrypted'] or e['expect']['content_len'] > 3000:
+                return None
+            e['expect'] = dict(e['expect'])
+            e['expect'][field] = val(e['expect'][field])
+            return e
+        return f
+    ctx.selftest(lambda b: ctx.judge('Trace_C20', b), good,
+                 [('content differs', c_expect('content', lambda c: c + [1])), ('file name differs', c_expect('filename', lambda c: c + [120])),
+                  ('one signature fewer than expected', c_expect('nsig', lambda n: n + 1)), ('compression differs', c_expect('comp', lambda c: 0 if c else 2)),
+                  ('import projection differs', lambda e: dict(e, after=dict(e['after'], content_len=(e['after'].get('content_len') or 0) + 1)) if e['k'] == 'import' and not e['raised'] and 'content_len' in e.get('after', {}) else None)], 'C20')
     ctx.extra['events_by_kind'] = {k: sum(1 for e in ev if e['k'] == k) for k in ('export', 'import')}
     for idx, clause in rej:
         e = ev[idx]
